@@ -78,11 +78,16 @@ pub const PREFIXES: &[(&str, bool)] = &[
     ("<![CDATA[x]", true), ("x&", false), ("<a b=&amp", false), ("<a b=\"&not", false), ("<a b='&lt", false), ("<a b=&", false), ("<a b=\"&", false), ("<title>&", false),
 ];
 
-pub fn enumerate_prefixed(k: usize, shard: u64, shards: u64, pieces: &[&str], f: &mut dyn FnMut(Value)) {
+pub fn enumerate_prefixed(k: usize, shard: u64, shards: u64, pieces: &[&str], only: Option<&str>, f: &mut dyn FnMut(Value)) {
     let none = json!([]);
     let np = pieces.len();
     let mut n: u64 = 0;
     for (pre, cdata) in PREFIXES {
+        if let Some(o) = only {
+            if !pre.contains(o) {
+                continue;
+            }
+        }
         for len in 0..=k {
             let total = np.pow(len as u32);
             for idx in 0..total {
@@ -191,6 +196,10 @@ pub fn stride_cases(f: &mut dyn FnMut(Value)) {
 }
 
 pub const BOM_PIECES: &[&str] = &["\u{feff}", "a", "<", "\n", "&", "b>", "-", "\r", "</script>", "<script>"];
+
+/// what can follow inside / after an attribute: line breaks of every kind, the characters that are errors in an
+/// unquoted value, quotes, separators
+pub const ATTR_PIECES: &[&str] = &["\r", "\n", "<", "=", "`", "x", ">", "\"", " ", "'", "&", "\t"];
 
 pub const LINE_PIECES: &[&str] = &[
     "\n", "\r", "<", ">", "a", "=", "\"", "&", "-", "!", " ", "/", ";", "#", "'", "doctype", "PUBLIC", "amp", "--", "script", "[CDATA[", "]",
@@ -360,8 +369,8 @@ pub fn generate(args: &Args, fields: &str, out: &mut Out) {
         "prefixed" => {
             let k = args.num("k", 2) as usize;
             let np = args.num("pieces", PIECES.len() as u64) as usize;
-            let set: &[&str] = if args.get("pset") == Some("lines") { LINE_PIECES } else { PIECES };
-            enumerate_prefixed(k, shard, shards, &set[..np.min(set.len())], &mut |c| emit(c, out));
+            let set: &[&str] = match args.get("pset") { Some("lines") => LINE_PIECES, Some("attr") => ATTR_PIECES, _ => PIECES };
+            enumerate_prefixed(k, shard, shards, &set[..np.min(set.len())], args.get("prefix-contains"), &mut |c| emit(c, out));
         },
         "stride" => {
             let mut all = Vec::new();
